@@ -1560,5 +1560,5 @@ def parts(tier):
         Part("diff", check=check_diff, strategy=strat_diff, quick=(16, 200), thorough=(16, 6000)),
         Part("ecdh", check=check_ecdh, strategy=strat_ecdh, quick=(16, 50), thorough=(16, 1500)),
         Part("invalid_grid", check=check_invalid, enum=enum_invalid_grid, quick=(8, 0), thorough=(16, 0)),
-        Part("invalid", check=check_invalid, strategy=strat_invalid, quick=(8, 150), thorough=(16, 4000)),
+        Part("invalid", check=check_invalid, strategy=strat_invalid, quick=(8, 300), thorough=(16, 4000)),
     ]
